@@ -328,6 +328,14 @@ def overlap_case_st(draw):
     sc["query"]["overlaps"] = True
     sc["transforms"] = {}
     sc["insertions"] = {"rows": [], "cols": []}
+    # subtotal rows on categorical rows (the overlap bases are those of the whole table)
+    rvar = sc["survey"]["vars"][sc["query"]["dims"][0]["var"]]
+    if rvar["type"] == "cat" and draw(st.booleans()):
+        v, m = xforms.dim_ids(rvar)
+        ins = draw(xforms.insertions_st(v, m, max_ins=2, allow_malformed=False,
+                                        allow_diff=False))
+        sc["transforms"] = {"rows_dimension": {"insertions": ins}}
+        sc["insertions"]["rows"] = ins
     return sc
 
 
